@@ -197,7 +197,7 @@ func init() {
 		probe, okA := parse("a")
 		_, okB := parse("b")
 		if !okA || !okB {
-			return Res{"setup": false, "places": []string{}, "stale": []any{}, "nplaces": 0}
+			return Res{"setup": false, "places": []string{}, "stale": []any{}, "nplaces": 0, "sibling": []any{}, "nsibling": 0, "sibling_in_same": true}
 		}
 		var paths [][]editStep
 		var names []string
@@ -258,6 +258,50 @@ func init() {
 				}
 			}
 		}
+		// ... and a COPY of the value (a struct copy, as a caller writes `upd := *v`) whose exported field was given B's content and which
+		// is then queried and serialised: the original - and the buffer it was parsed from - must not notice
+		sibling := []any{}
+		siblingIn := true
+		nsib := 0
+		for k, path := range paths {
+			if len(path) != 1 || path[0].field < 0 {
+				continue
+			}
+			orig := a.Bytes("a")
+			inA := append([]byte{}, orig...)
+			val, perr := cold(inA)
+			b1, okb := parse("b")
+			if perr != nil || val == nil || !okb {
+				continue
+			}
+			v0 := reflect.ValueOf(val)
+			if v0.Kind() != reflect.Pointer || v0.IsNil() || v0.Elem().Kind() != reflect.Struct {
+				continue
+			}
+			src, okS := resolvePlace(b1, path)
+			if !okS {
+				continue
+			}
+			before := renderAllMethods(v0)
+			u := reflect.New(v0.Elem().Type())
+			u.Elem().Set(v0.Elem())
+			dst, okD := resolvePlace(u, path)
+			if !okD || !dst.CanSet() || dst.Type() != src.Type() {
+				continue
+			}
+			dst.Set(src)
+			renderAllMethods(u)
+			after := renderAllMethods(v0)
+			nsib++
+			for name, x := range before {
+				if after[name] != x && len(sibling) < 12 {
+					sibling = append(sibling, map[string]any{"place": names[k], "method": name})
+				}
+			}
+			if string(inA) != string(orig) {
+				siblingIn = false
+			}
+		}
 		// ... and all of them at once: a value every exported field of which was given B's content is B, whatever it answered before
 		// (this also reaches what the library computes once while parsing or constructing)
 		if v3, ok3 := parse("a"); ok3 {
@@ -284,6 +328,6 @@ func init() {
 				}
 			}
 		}
-		return Res{"setup": true, "places": done, "nplaces": len(done), "stale": stale}
+		return Res{"setup": true, "places": done, "nplaces": len(done), "stale": stale, "sibling": sibling, "nsibling": nsib, "sibling_in_same": siblingIn}
 	})
 }
